@@ -1911,7 +1911,8 @@ async function shallow_parse_input_query(query_text, input_iterator, join_tables
     if (rb_actions.hasOwnProperty(UPDATE)) {
         var update_expression = translate_update_expression(rb_actions[UPDATE]['text'], input_variables_map, string_literals, ' '.repeat(8));
         query_context.update_expressions = combine_string_literals(update_expression, string_literals);
-        query_context.writer.set_header(input_header);
+        // The writer gets an array of its own: `input_header` may be the caller's column names array and a writer is free to rewrite what it is given (the CSV writer does).
+        query_context.writer.set_header(input_header === null ? null : input_header.slice());
     }
 
     if (rb_actions.hasOwnProperty(SELECT)) {
